@@ -23,11 +23,11 @@ MANIFEST = dict(
          "builtin, closure, partial application, flip, composition, call/chain/list section, and the transcribed builtins then . apply of "
          "const id flip >>> <<<), all values a b c and EVERY meaning of the opaque builtins, the forms a f b, f(a,b), f! a,b, a `f` b, "
          "f(_,b)(a), f(a,_)(b), (_ f b)(a), (a f _)(b), [a,b] apply f, f of [a,b], f(_,_)(a,b), f(..._)([a,b]) and (a f)(b) for non-function a "
-         "evaluate to run f [a;b]; x f= b leaves run f [x;b]; one-argument calls that return PartialApp2/PartialAppLast are right sections; "
+         "evaluate to run f [a;b]; x f= b leaves run f [x;b], and for a right-hand side EXPRESSION that reads the assigned place (x f= g(x), a[i] f= a[j]; op_assign_store with the interpreter's step order explicit) the place ends up holding f(old value, rhs evaluated in the old store); one-argument calls that return PartialApp2/PartialAppLast are right sections; "
          "the 1-, 3- and n-argument analogues with bang/splat/./then/section forms (any hole layout); PartialApp1/2/Last, Flip, Composition unfold "
          "to the call they abbreviate; fuel only ever turns OutOfFuel into the answer. The model is tied to /repo on every run by (b) an exhaustive "
          "sweep of Builtin::run vs run1/run2 (and f(y)(x) vs f(x,y)) over all ~290 non-I/O global functions x all 1- and 2-tuples of a 29-value pool, "
-         "and (a) ~1500 (f,a,b) cases x 11-18 surface forms through implementation and extracted model. Known finding `variadic-combinator` (***, &&&, equals: the one-argument call is the unary combinator, not a right section): C04_right_section carries the premise, C04_right_section_refuted is the witness.",
+         "(a) ~1500 (f,a,b) cases x 11-18 surface forms through implementation and extracted model, and (c) ~750 op-assign statements whose right-hand side reads the target (plain variables and index targets) against the plain-call program. Known finding `variadic-combinator` (***, &&&, equals: the one-argument call is the unary combinator, not a right section): C04_right_section carries the premise, C04_right_section_refuted is the witness.",
     note="Trusted: Coq kernel; the hand-written model Dispatch/Apply.v (tie to code = the correspondence run, i.e. differential testing); "
          "extraction + OCaml runner; Rust harness; Python renderer. An opaque builtin's one- and two-argument entry points are DEFINED from its "
          "vector entry point in the model: per-builtin agreement of the ~45 hand-written run1/run2 overrides is established by sweep (b) only, "
@@ -645,6 +645,140 @@ def report_dispatch(ctx, cases, runner):
     return n
 
 
+# ----------------------------------------------------------------------------- op-assign whose right-hand side reads the target
+OA_RHS = [("x", "x"), ("[x, x]", "(list x x)"), ("id(x)", "(call (K id) x)"), ("g(x)", "(call g x)"), ("[x]", "(list x)"),
+          ("x then g", "(chain x (K then) g)"), ("[x, 1, x]", "(list x one x)")]
+OA_CLOSURES = ["\\p, q -> [p, q]", "\\p, q -> q", "\\p, q -> p", "\\...ps -> ps"]
+OA_BUILTINS = ["++", "append", "prepend", "const", "==", "max", "min", "in", "zip", "+", "*", "-", "<", "!!", "then", "apply", "join", "$"]
+OA_INDEXED = [("[1, 2, 3]", ["0", "1", "2", "0-1"]), ("[[1], [2, 3], []]", ["0", "1", "2"]), ('["a", "bc"]', ["0", "1"]),
+              ('{"k": 5, "j": 7}', ['"k"', '"j"']), ("V(1, 2, 3)", ["0", "2"]), ("[[1, 2], [3, 4]]", ["0", "1"])]
+OA_INDEXED_F = ["+", "*", "-", "++", "max", "const", "append", "\\p, q -> [p, q]", "\\p, q -> q"]
+
+
+def gen_opassign_cases(ctx, sweep, names, pool):
+    """each case: dict(label, setup stmts, stmt (the op-assign), target (expression read afterwards), oracle stmts + expr, model line or None)"""
+    rng = ctx.rng
+    cases = []
+    G = "\\t -> [t]"
+
+    def var_case(label, fsrc, fmodel, closures, xsrc, rhs_src, rhs_sx):
+        setup = [f"f := {fsrc}", f"g := {G}", "one := 1", f"a := {xsrc}", "x := a"]
+        model = f"(let f {fmodel}) (let g (C 1)) (let x a) (opassign x f {rhs_sx})"
+        return dict(label=label, setup=setup, stmt=f"x f= {rhs_src}", target="x",
+                    oracle_setup=setup, oracle=f"f(x, {rhs_src})",      # plain call: x keeps its old value
+                    model=model, closures=closures, rhs=rhs_src)
+    diag = ctx.n(2, 6)
+    for n in names:
+        m = sweep.get(n)
+        if not m or n in ENV_DEPENDENT:
+            continue
+        d = [t for t in m["oks"] if len(t) == 2 and t[0] == t[1]]
+        for t in rng.sample(d, min(diag, len(d))):
+            for rs, rx in (OA_RHS[0], OA_RHS[2]):
+                cases.append(var_case("oa:" + n, n, "(B f () ())", ["", "g"], pool[t[0]], rs, rx))
+    data_idx = [i for i in range(len(POOL)) if i not in BIG]
+    for fsrc in OA_CLOSURES:
+        for _ in range(ctx.n(8, 40)):
+            i = rng.choice(data_idx)
+            rs, rx = rng.choice(OA_RHS)
+            cases.append(var_case("oa:closure", fsrc, "(C 0)", ["f", "g"], POOL[i], rs, rx))
+    for n in OA_BUILTINS:
+        for _ in range(ctx.n(10, 50)):
+            i = rng.choice(data_idx)
+            rs, rx = rng.choice(OA_RHS)
+            cases.append(var_case("oa:" + n, n, "(B f () ())", ["", "g"], POOL[i], rs, rx))
+    # index targets: a[i] f= (expression reading a[i], a[j], a): no model, the oracle is the plain-call program
+    for asrc, idxs in OA_INDEXED:
+        for fsrc in OA_INDEXED_F:
+            for _ in range(ctx.n(2, 8)):
+                i, j = rng.choice(idxs), rng.choice(idxs)
+                rhs = rng.choice([f"a[{i}]", f"a[{j}]", f"[a[{i}], a[{j}]]", "len(a)", f"id(a[{i}])", "a"])
+                setup = [f"f := {fsrc}", f"a := {asrc}"]
+                cases.append(dict(label="oa-index:" + fsrc, setup=setup, stmt=f"a[{i}] f= {rhs}", target="a",
+                                  oracle_setup=setup + [f"t_ := f(a[{i}], {rhs})", f"a[{i}] = t_"], oracle="a",
+                                  model=None, closures=[], rhs=rhs))
+    return cases
+
+
+def run_opassign(ctx, cases, runner, fresh=False):
+    progs = [c["setup"] + [c["stmt"], c["target"]] for c in cases]
+    oprogs = [c["oracle_setup"] + [c["oracle"]] for c in cases]
+    res = common.run_prog(progs, timeout=20.0, fuel=200_000, fresh=fresh)
+    ores = common.run_prog(oprogs, timeout=20.0, fuel=200_000, fresh=fresh)
+    mlines = [c["model"] for c in cases if c["model"]]
+    mres = iter(common.run_model(runner, mlines)) if runner and mlines else iter([])
+
+    def obs(r, nsetup, k_stmts):
+        rs = r.get("results")
+        if rs is None:
+            return None                                   # whole program too slow / died: skipped
+        if len(rs) < nsetup + k_stmts or any(x.get("status") != "ok" for x in rs[:nsetup]):
+            return "setup-fail" if any(x.get("status") != "ok" for x in rs[:nsetup]) else "fail"
+        tail = rs[nsetup:nsetup + k_stmts]
+        if any(x.get("status") != "ok" for x in tail[:-1]):
+            return "fail"
+        merged = dict(tail[-1])
+        merged["out"] = "".join(x.get("out") or "" for x in tail)
+        return observable(merged)
+    for c, r, o in zip(cases, res, ores):
+        c["impl"] = obs(r, len(c["setup"]), 2)
+        ns = len(c["setup"])
+        # oracle: setup statements must succeed; the extra oracle statements (t_ := f(..); a[i] = t_) may fail = "fail"
+        c["oracle_val"] = obs(o, ns, len(c["oracle_setup"]) - ns + 1)
+        c["model_nf"] = next(mres) if (c["model"] and runner) else None
+        c["ref_src"] = None
+        if c["model_nf"] and c["model_nf"].startswith("ok "):
+            try:
+                cl = {k: v for k, v in enumerate(c["closures"])}
+                c["ref_src"] = render_val(parse_sx(c["model_nf"][3:]), cl)
+            except Unrenderable:
+                pass
+    refs = [c for c in cases if c["ref_src"]]
+    rres = common.run_prog([c["setup"] + [c["ref_src"]] for c in refs], timeout=20.0, fuel=200_000, fresh=fresh)
+    for c in cases:
+        c["ref_val"] = None
+    for c, r in zip(refs, rres):
+        c["ref_val"] = obs(r, len(c["setup"]), 1)
+    return cases
+
+
+def judge_opassign(c):
+    if c["impl"] is None or c["oracle_val"] is None or "setup-fail" in (c["impl"], c["oracle_val"]):
+        return None
+    strip = lambda o: o                      # values and printed output are both named by the property
+    if c["impl"] != c["oracle_val"]:
+        return "property"
+    if c["model"] and c.get("ref_val") not in (None, "setup-fail") and c["ref_val"] != c["impl"]:
+        return "correspondence"
+    return None
+
+
+def report_opassign(ctx, cases, runner):
+    bad = [c for c in cases if judge_opassign(c)]
+    if not bad:
+        return 0
+    run_opassign(ctx, bad, runner, fresh=True)
+    n, seen = 0, set()
+    for c in bad:
+        k = judge_opassign(c)
+        if not k or (k, c["label"]) in seen:
+            continue
+        seen.add((k, c["label"]))
+        n += 1
+        rep = {"part": "opassign", "case": {k2: c[k2] for k2 in ("label", "setup", "stmt", "target", "oracle_setup", "oracle", "model", "closures", "rhs")},
+               "program": c["setup"] + [c["stmt"], c["target"]], "implementation": c["impl"],
+               "plain_call_program": c["oracle_setup"] + [c["oracle"]], "plain_call_value": c["oracle_val"],
+               "coq_model": c["model_nf"], "model_reference_program": c["ref_src"], "model_reference_value": c["ref_val"]}
+        if k == "property":
+            rep["what"] = ("after `target f= rhs` (rhs reads the target) the target does not hold f(old value, value of rhs before the statement) "
+                           "as computed by plain calls (re-run in a fresh environment)")
+            ctx.violation("property", rep, found=True)
+        else:
+            rep["what"] = "op-assign agrees with the plain-call program but not with the normal form Dispatch/Apply.v (op_assign_store) gives"
+            ctx.violation("correspondence", rep, found=False)
+    return n
+
+
 # ----------------------------------------------------------------------------- run
 def run(ctx):
     runner = common.standard_prelude(ctx)
@@ -699,6 +833,9 @@ def run(ctx):
         nbad = report_dispatch(ctx, cases, runner)
     else:
         nbad = 0
+    oa_cases = gen_opassign_cases(ctx, sweep, names, pool)
+    run_opassign(ctx, oa_cases, runner)
+    oa_bad = report_opassign(ctx, oa_cases, runner)
     t_disp = time.time() - t1
     # ---- coverage
     tot = lambda k: sum(sweep[n][k] for n in names)
@@ -716,8 +853,9 @@ def run(ctx):
                             "forms": len(c.forms), "implementation_all_forms": c.impl.get("call"), "coq_model_normal_form": c.model.get("call"),
                             "reference_program": c.ref_src})
     ctx.coverage.update({
-        "evaluations": tot("calls") + forms_run,
-        "distinct_nontrivial": ok_tuples + len(nontrivial),
+        "evaluations": tot("calls") + forms_run + len(oa_cases),
+        "distinct_nontrivial": ok_tuples + len(nontrivial) + len({(c["label"], tuple(c["setup"]), c["stmt"]) for c in oa_cases
+                                                                      if (c["impl"] or "fail") != "fail" and c["impl"] != "setup-fail"}),
         "exhaustive": True,
         "rule": "(b) exhaustive: every global function of the live env that is not excluded by name x every 1- and 2-tuple of the value pool "
                 "(the big integers are withheld from count/exponent builtins); evaluations counts direct entry-point calls (run, run1/run2, section "
@@ -738,6 +876,17 @@ def run(ctx):
                      "function_valued_results_probed": sum(1 for c in cases if runner is not None and any(c.isfn.values())),
                      "cases_skipped_too_slow": sum(1 for c in cases if getattr(c, "hung", False)),
                      "suspicious": nbad, "wall_s": round(t_disp, 1)},
+        "opassign_reading_target": {
+            "cases": len(oa_cases), "index_target_cases": sum(1 for c in oa_cases if c["model"] is None),
+            "with_value": sum(1 for c in oa_cases if (c["impl"] or "fail") not in ("fail", "setup-fail")),
+            "all_fail": sum(1 for c in oa_cases if c["impl"] == "fail"),
+            "compared_with_model_normal_form": sum(1 for c in oa_cases if c.get("ref_val") not in (None, "setup-fail")),
+            "skipped": sum(1 for c in oa_cases if c["impl"] is None or c["impl"] == "setup-fail"),
+            "by_rhs": {r: sum(1 for c in oa_cases if c["rhs"] == r) for r, _ in OA_RHS},
+            "samples": [{"program": "; ".join(c["setup"] + [c["stmt"], c["target"]]), "implementation": c["impl"],
+                         "plain_calls": "; ".join(c["oracle_setup"][len(c["setup"]):] + [c["oracle"]]), "plain_call_value": c["oracle_val"],
+                         "coq_model": c["model_nf"]} for c in oa_cases[::max(1, len(oa_cases) // 8)][:8]],
+            "suspicious": oa_bad},
     })
     ctx.assumptions += [
         "an opaque builtin's run1/run2 are defined from run in the model (checked by the sweep on the pool, not proved per builtin)",
@@ -756,6 +905,13 @@ def replay(ctx, rep):
         conf = confirm_diff(d, pool)
         print(json.dumps({"fn": rep["fn"], "args": rep["args"], "still_differs": bool(conf), "now": conf[:1]}))
         return 1 if conf else 0
+    if rep.get("part") == "opassign":
+        c = dict(rep["case"])
+        run_opassign(ctx, [c], runner, fresh=True)
+        k = judge_opassign(c)
+        print(json.dumps({"program": c["setup"] + [c["stmt"], c["target"]], "implementation": c["impl"], "plain_call_value": c["oracle_val"],
+                          "model": c["model_nf"], "verdict": k}))
+        return 1 if k else 0
     c = case_from_replay(rep["case"])
     run_dispatch(ctx, [c], runner, fresh=True)
     j = judge(c)
